@@ -621,11 +621,11 @@ def _register(g):
                "spill_state", "error_info"]
     A = ["round(): correctly rounded, ties to even (CPython)", "floats treated as exact reals (decifloat abstraction)"]
     oset(n + ".init", ["C09", "C10", "C11", "C19"], [_fn(g, "__init__")])(lambda h: _init(h, g))
-    oset(n + ".getters", ["C10", "C19"], [_fn(g, x) for x in getters])(lambda h: _getters(h, g))
+    oset(n + ".getters", ["C10", "C19", "C04", "C11"], [_fn(g, x) for x in getters])(lambda h: _getters(h, g))
     oset(n + ".next_quick_timer", ["C10", "C19"], [_fn(g, "next_quick_timer")])(lambda h: _timer_getter(h, g))
-    oset(n + ".update_ac_status", ["C10", "C12", "C02", "C14"], [_fn(g, "update_ac_status")],
+    oset(n + ".update_ac_status", ["C10", "C12", "C02", "C14", "C19"], [_fn(g, "update_ac_status")],
          assumptions=["socket.send of the error-information request does not raise (socket open, queue not full); otherwise the notification is skipped"])(lambda h: _update_status(h, g))
-    oset(n + ".update_timer_and_error", ["C10", "C12"], [_fn(g, "update_ac_timer_status"), _fn(g, "update_ac_error_info")])(lambda h: _update_timer_and_error(h, g))
+    oset(n + ".update_timer_and_error", ["C10", "C12", "C19"], [_fn(g, "update_ac_timer_status"), _fn(g, "update_ac_error_info")])(lambda h: _update_timer_and_error(h, g))
     oset(n + ".zone_updated-and-subscriptions", ["C12"], [_fn(g, "_zone_updated"), _fn(g, "subscribe"), _fn(g, "unsubscribe"),
                                                           _fn(g, "subscribe_ac_state"), _fn(g, "unsubscribe_ac_state")])(lambda h: _zone_updated(h, g))
     oset(n + ".set_power", ["C04", "C11", "C02", "C19"], [_fn(g, "set_power"), _fn(g, "_send_ac_control_message")])(lambda h: _set_power(h, g))
